@@ -172,7 +172,7 @@ theorem readable_step (hE : EnvOK E) (cls : ClassDef) (hc : ClassClean cls) (hs 
       · subst hne
         rw [lookup_store_same] at hl; cases hl
         rw [ht] at hn; cases hn
-        exact (hsound v w' hv).1
+        exact (hsound v w hv).1
       · rw [lookup_store_other _ _ _ _ hne] at hl
         exact hr n tt' w' hn hl
     rcases step_cases E cls st name v tt ht with ⟨e, _, _, h⟩ | ⟨w, hv, h⟩
@@ -227,7 +227,7 @@ theorem shadow_step (cls : ClassDef) (hw : ClassWF cls) (hs : NoShadowClash cls)
       · subst hne
         rw [ht] at hn; cases hn
         rw [lookup_store_same] at hl; cases hl
-        obtain ⟨s, h1, h2⟩ := hr n tt w' ht hm hl0
+        obtain ⟨s, h1, h2⟩ := hr n tt w ht hm hl0
         exact ⟨s, h1, by rw [lookup_store_other _ _ _ _ (shadow_ne n)]; exact h2⟩
       · exact other w n tt' w' hn hm' hne hl
     · rw [h]
